@@ -60,6 +60,7 @@ type pscript struct {
 }
 
 type sreq struct {
+	hostRaw   string // (C19) the Host header as sent, when it names no site
 	id        string
 	site      string // s (full config) | t (twin without gzip)
 	method    string
@@ -118,7 +119,7 @@ type siteRig struct {
 	limit       int                 // 0 = none
 	limitSub    int                 // nested scope /p/sub
 	subScope    string              // how the nested scope is written: /p/sub or /p/sub/
-	limitsAll   bool // a short-form "limits 300000" after the block(s)
+	limitsAll   bool                // a short-form "limits 300000" after the block(s)
 	limitsSplit bool                // the two scopes are written as two limits directives
 	limitPre    int                 // >0: a third scope, /p/su, written before the nested one: as deep as it, and a prefix of it as a string
 	hasMatchers bool                // C19: rewrite / redir / browse, driven by request text
@@ -788,6 +789,15 @@ func runSite(mode string) sim.RigFunc {
 		if mode == "C18" {
 			text += siteText("t.test", true)
 		}
+		if mode == "C19" {
+			// a site that answers whatever Host the client names (every placeholder about the host is
+			// then evaluated on the client's text)
+			text += "http://:0 {\n\tbind 127.0.0.1\n\tsimnet v0\n\troot " + r.root + "\n" +
+				"\theader / X-Seen \"{hostonly}|{host}|{hostname}|{port}|{label1}|{label2}\"\n" +
+				"\tlog / " + r.logFile + "c \"{hostonly} {host} {port} {label1}\" {\n\t\trotate_disable\n\t}\n" +
+				"\tredir 302 {\n\t\tif {path} is /p/rdh\n\t\t/ http://{hostonly}/p/x\n\t}\n" +
+				"\tprobe c\n}\n"
+		}
 		c.Params["directives"] = fmt.Sprintf("log=%v gzip=%v(level %d,min %d,not %q) errors=%v pages=%d header=%v status=%v mime=%v request_id=%v internal=%v auth=%v limit=%d/%d",
 			r.hasLog, r.hasGzip, r.gzLevel, r.gzMin, r.gzNot, fmt.Sprintf("%v(visible=%v,templates=%v)", r.hasErrors, r.errVisible, r.hasTemplates), len(r.errPages), r.hasHeader, r.hasStatus, r.hasMime, r.hasReqID, r.hasInternal, r.hasAuth, r.limit, r.limitSub)
 
@@ -1139,6 +1149,14 @@ func (r *siteRig) genReq(id, site string) *sreq {
 // placeholder replacer, the path matchers, cookies and basic auth (C19).
 func (r *siteRig) hostileRequest(q *sreq) {
 	st := r.st
+	if st.Draw(6) == 0 {
+		// a Host no site is named after: answered by the site without a name
+		q.hostRaw = []string{"[", "[::1", "[::1:8080", "[::1]", "[::1]:", "[]:80", "]:[", "other.test", "other.test:", "other.test:99999999999", ":80", ":", "a..b", ".", "x:y:z", "{hostonly}", "{label9}", "xn--", "a.b.c.d.e.f:1", "1.2.3.4.", "%5B::1%5D"}[st.Draw(21)]
+		r.c.Fault("hostile-host-header")
+		if st.Draw(4) == 0 {
+			q.path = "/p/rdh"
+		}
+	}
 	junk := []string{"{", "}", "{}", "{>", "{>}", "{~", "{?", "{{", "}}", `\`, `\{`, "{" + strings.Repeat("a", 300), strings.Repeat("{", 200), "{>" + strings.Repeat("X", 100) + "}", "{~a}{?b}{>c}",
 		"{when}", "{latency}", "{request}", "{request_body}", "{mitm}", "{tls_cipher}", "{rewrite_uri}", "{path_escaped}", "{dir}", "{file}", "{hostonly}", "{port}", "{remote}", "{user}", "{labelN}", "{label0}", "{label99999999999999999999}", "{label-1}", "\x00", "\xff\xfe"}
 	pickj := func() string { return junk[st.Draw(len(junk))] }
@@ -1202,6 +1220,9 @@ func (r *siteRig) addConn(rs []*sreq) {
 		host := "s.test"
 		if q.site == "t" {
 			host = "t.test"
+		}
+		if q.hostRaw != "" {
+			host = q.hostRaw
 		}
 		fmt.Fprintf(&b, "%s %s HTTP/1.1\r\nHost: %s\r\nX-Req: %s\r\n", q.method, uri, host, q.id)
 		for _, hd := range q.hdrs {
